@@ -1352,6 +1352,66 @@ Section WithCfg.
     e <- slot_read (padd (i_pos it) (l - 1)) ;;
     ret (Some e, it).
 
+  (* ---- the stepping methods as they run on an iterator OBJECT of the world (slot i of `iters`),
+     statement by statement as in src/impl/drain.rs and src/impl/into_iter.rs: every `self.field`
+     reads the object, `self.field = x` writes it (EquivIter.v ties these to the translated bodies;
+     Proofs/IterAt.v shows that on a well-formed iterator they are the value-passing functions
+     above, which the protocol theorems are about; Run.v executes these) ---- *)
+  Definition drain_of (i : nat) : M drain_it :=
+    it <- iter_get i ;; match it with IDrain d => ret d | _ => ub BadObject end.
+  Definition into_of (i : nat) : M into_it :=
+    it <- iter_get i ;; match it with IInto t => ret t | _ => ub BadObject end.
+  Definition set_drain_pos (i : nat) (p : eptr) : M unit :=
+    d <- drain_of i ;; iter_set i (Some (IDrain (with_pos d p))).
+  Definition set_drain_end (i : nat) (p : eptr) : M unit :=
+    d <- drain_of i ;; iter_set i (Some (IDrain (with_end d p))).
+  Definition set_into_pos (i : nat) (p : eptr) : M unit :=
+    t <- into_of i ;; iter_set i (Some (IInto {| i_vec := i_vec t; i_pos := p |})).
+
+  Definition drain_next_at (i : nat) : M (option elem) :=
+    d <- drain_of i ;;
+    lt <- ptr_lt (d_pos d) (d_end d) ;;               (* if self.drain_pos_ >= self.drain_end_ *)
+    if negb lt then ret None else
+    e <- slot_read (d_pos d) ;;
+    set_drain_pos i (padd (d_pos d) 1) ;;;
+    ret (Some e).
+
+  Definition drain_next_back_at (i : nat) : M (option elem) :=
+    d <- drain_of i ;;
+    lt <- ptr_lt (d_pos d) (d_end d) ;;               (* if self.drain_end_ <= self.drain_pos_ *)
+    if negb lt then ret None else
+    let p := padd (d_end d) (-1) in
+    e <- slot_read p ;;
+    set_drain_end i p ;;;
+    ret (Some e).
+
+  Definition into_next_at (i : nat) : M (option elem) :=
+    t <- into_of i ;;
+    d <- is_default (i_vec t) ;;
+    if d then ret None else
+    l <- len (i_vec t) ;;                             (* header.len *)
+    lt <- ptr_lt (i_pos t) (padd (i_pos t) l) ;;      (* if data >= data.add(count) *)
+    if negb lt then ret None else
+    set_into_pos i (padd (i_pos t) 1) ;;;
+    add_len (i_vec t) (-1) ;;;
+    e <- slot_read (i_pos t) ;;
+    ret (Some e).
+
+  Definition into_next_back_at (i : nat) : M (option elem) :=
+    t <- into_of i ;;
+    d <- is_default (i_vec t) ;;
+    if d then ret None else
+    l <- len (i_vec t) ;;
+    lt <- ptr_lt (i_pos t) (padd (i_pos t) l) ;;
+    if negb lt then ret None else
+    add_len (i_vec t) (-1) ;;;
+    l' <- len (i_vec t) ;;                            (* data.add(header.len) after the decrement *)
+    e <- slot_read (padd (i_pos t) l') ;;
+    ret (Some e).
+
+  Definition into_len_at (i : nat) : M Z :=
+    t <- into_of i ;; len (i_vec t).
+
   Definition into_as_slice (it : into_it) : M (list elem) :=
     d <- is_default (i_vec it) ;;
     if d then ret [] else
